@@ -97,8 +97,8 @@ def run_case(case):
                 if o.shape != numpy.shape(r) or not numpy.array_equal(o, numpy.asarray(r), equal_nan=True):
                     viol.append(V(f"c12:wiring:{nm.split()[0]}", f"the calculator's {nm} are not those of interpolate_modes(method={method!r}, order={order}) on its volume grid (QHA fit order {case.get('qorder', 3)})"))
                     break
-        except AttributeError:
-            pass        # attribute layout changed: the wiring comparison is skipped, never an alarm
+        except (AttributeError, TypeError):
+            pass        # attribute layout / call signature changed: the wiring comparison is skipped, never an alarm
         for k in iso:
             a, b = numpy.asarray(iso[k]), numpy.asarray(adi[k])
             name = "c%d%d" % tuple(k.voigt)
